@@ -10,7 +10,7 @@
 using namespace Qentem;
 
 // Template print paths (C03): every way a {var:} tag can emit a string.
-//   tpl <auto> <w> <mode> <units>   modes: var ptr arr loopval loopkey echo raw rawptr svar
+//   tpl <auto> <w> <mode> <units>   modes: var ptr arr loopval loopkey echo raw rawptr svar svarb
 template <typename Char_T>
 static std::basic_string<Char_T> lit(const char *a) {
     std::basic_string<Char_T> r;
@@ -50,8 +50,11 @@ static std::string doTpl(const std::string &mode, const std::vector<uint64_t> &u
         t = lit<Char_T>("{var:");
         t.append(in.p, in.n);
         t.push_back(Char_T('}'));
-    } else if (mode == "svar") {
-        Str ph(in.p, in.n);
+    } else if (mode == "svar" || mode == "svarb") {
+        Str ph;
+        if (mode == "svarb") ph.push_back(Char_T('{')); // "{S}" is not a placeholder (S is not one digit): literal text
+        ph.append(in.p, in.n);
+        if (mode == "svarb") ph.push_back(Char_T('}'));
         ph += lit<Char_T>("{0}");
         value[kp] = String<Char_T>(static_cast<const Char_T *>(ph.data()), SizeT(ph.size()));
         value[ka] = S;
